@@ -55,8 +55,9 @@ impl Scratch {
 		let n = SCRATCH_SEQ.fetch_add(1, Ordering::SeqCst);
 		let p = verif_root()
 			.join(".scratch")
-			.join(format!("{}", std::process::id()))
-			.join(format!("{n}"));
+			.join(format!("{:010}", std::process::id()))
+			// fixed width: clipped log excerpts must not depend on the length of the path
+			.join(format!("{n:010}"));
 		std::fs::create_dir_all(&p).expect("create scratch dir");
 		Self(p)
 	}
@@ -78,7 +79,7 @@ impl Drop for Scratch {
 
 /// Remove this process's scratch parent (call once, when no run is in flight any more).
 pub fn cleanup_process_scratch() {
-	let p = verif_root().join(".scratch").join(format!("{}", std::process::id()));
+	let p = verif_root().join(".scratch").join(format!("{:010}", std::process::id()));
 	let _ = std::fs::remove_dir_all(p);
 	let _ = std::fs::remove_dir(verif_root().join(".scratch"));
 }
